@@ -23,7 +23,7 @@ def maxrel(a, b, floor=1.0):
     if a.size == 0:
         return 0.0
     if not (np.all(np.isfinite(a)) and np.all(np.isfinite(b))):
-        if np.array_equal(a, b):
+        if np.array_equal(a, b, equal_nan=True):
             return 0.0
         return float("inf")
     return float(np.max(np.abs(a - b) / np.maximum(floor, np.abs(b))))
